@@ -362,7 +362,7 @@ class Site:
                     v = L(s.value)
                     nm = rename.get(tg.id, tg.id)
                     uses = sum(1 for r in rest for n in ast.walk(r) if isinstance(n, ast.Name) and n.id == tg.id and isinstance(n.ctx, ast.Load))
-                    if any(isinstance(x, ast.Call) for x in ast.walk(v)) and uses > 1:
+                    if any(isinstance(x, ast.Call) for x in ast.walk(v)) and uses > 1 and not _duplicable(v):
                         # evaluate once, at the first use: `(nm := v)` there, `nm` afterwards -- when the uses are in one
                         # returned expression whose operands are evaluated left to right
                         if len(rest) == 1 and isinstance(rest[0], ast.Return) and rest[0].value is not None and not any(
@@ -599,12 +599,12 @@ def _lower_structured(stmts: list[ast.stmt], ret) -> list[ast.stmt]:
                 return [ast.Try(go(list(s.body), None) or [ast.Pass()], hs, [], list(s.finalbody))]
             if isinstance(s, ast.With) and not rest and k is None:
                 return [ast.With(s.items, go(list(s.body), None) or [ast.Pass()])]
-            if isinstance(s, (ast.While, ast.For)) and len(rest) == 1 and isinstance(rest[0], ast.Return) and k is None \
-                    and not s.orelse and _returns_at_loop_level(s):
-                # search loop followed by the default result: the default goes to the loop's else clause
+            if isinstance(s, (ast.While, ast.For)) and rest and not s.orelse and _returns_at_loop_level(s):
+                # search loop followed by the default path: what follows the loop goes to its else clause (it runs
+                # exactly when no `return` -- now `deliver; break` -- ended the loop)
                 s2 = copy.deepcopy(s)
                 _returns_to_breaks(s2.body, ret)
-                s2.orelse = ret(rest[0].value) or [ast.Pass()]
+                s2.orelse = go(rest, k) or [ast.Pass()]
                 return [s2]
             if isinstance(s, (ast.While, ast.For)) and not rest and k is None and not s.orelse and _returns_at_loop_level(s):
                 # the loop is the last statement of the helper: `return e` = deliver e and leave the loop
@@ -926,6 +926,82 @@ def _thread_sentinels(body: list[ast.stmt]) -> bool:
     return changed
 
 
+def _project_tuples(fn: ast.FunctionDef) -> bool:
+    """`t = (a, b)` ... `t[0]`  ->  `a`   for a local that is bound once, outside of loops, to a tuple of plain names that
+    are not re-bound afterwards (what is left of a record object after its constructor and accessors were normalised)."""
+    stores: dict[str, list[ast.AST]] = {}
+    for n in _own_walk(fn):
+        if isinstance(n, ast.Name) and isinstance(n.ctx, (ast.Store, ast.Del)):
+            stores.setdefault(n.id, []).append(n)
+    in_loop: set[int] = set()
+    for n in _own_walk(fn):
+        if isinstance(n, (ast.For, ast.While)):
+            for x in ast.walk(n):
+                in_loop.add(id(x))
+    tuples: dict[str, ast.Tuple] = {}
+    for n in _own_walk(fn):
+        if isinstance(n, ast.Assign) and len(n.targets) == 1 and isinstance(n.targets[0], ast.Name) and isinstance(n.value, ast.Tuple) \
+                and n.value.elts and all(isinstance(e, ast.Name) for e in n.value.elts) and id(n) not in in_loop:
+            t = n.targets[0].id
+            if len(stores.get(t, [])) == 1 and all(
+                    all(getattr(st_, "lineno", 0) <= n.lineno for st_ in stores.get(e.id, [])) for e in n.value.elts):
+                tuples[t] = n.value
+    if not tuples:
+        return False
+    changed = [False]
+
+    class P(ast.NodeTransformer):
+        def visit_FunctionDef(self, n):
+            return self.generic_visit(n) if n is fn else n
+
+        def visit_Subscript(self, n):
+            self.generic_visit(n)
+            if isinstance(n.value, ast.Name) and n.value.id in tuples and isinstance(n.slice, ast.Constant) and isinstance(n.slice.value, int) \
+                    and isinstance(n.ctx, ast.Load) and 0 <= n.slice.value < len(tuples[n.value.id].elts):
+                changed[0] = True
+                return ast.copy_location(ast.Name(tuples[n.value.id].elts[n.slice.value].id, ast.Load()), n)
+            return n
+    P().visit(fn)
+    return changed[0]
+
+
+def _fold_after_inlining(fn: ast.FunctionDef) -> None:
+    """Constant arguments substituted for parameters leave tests like `None is not None`; a name that only ever stands
+    for a closure of the function is not None. Fold them and drop the branches they decide."""
+    from . import peval
+    closures = {d.name for d in _nested_defs(fn)}
+    stored = {n.id for n in _own_walk(fn) if isinstance(n, ast.Name) and isinstance(n.ctx, (ast.Store, ast.Del))}
+    closures -= stored
+
+    class C(ast.NodeTransformer):
+        def visit_FunctionDef(self, n):
+            return n if n is not fn else self.generic_visit(n)
+
+        def visit_Compare(self, n):
+            self.generic_visit(n)
+            if len(n.ops) == 1 and isinstance(n.ops[0], (ast.Is, ast.IsNot)) and isinstance(n.left, ast.Name) and n.left.id in closures \
+                    and isinstance(n.comparators[0], ast.Constant) and n.comparators[0].value is None:
+                return ast.copy_location(ast.Constant(isinstance(n.ops[0], ast.IsNot)), n)
+            return n
+    C().visit(fn)
+    f2 = peval._Fold({})
+    fn.body = f2._block(fn.body) or fn.body
+    ast.fix_missing_locations(fn)
+
+
+PURE_ACCESSORS = {"node_data", "root", "len", "variable_count", "get_variable_name", "items", "keys", "values"}
+
+
+def _duplicable(v: ast.AST) -> bool:
+    """an expression that may be evaluated at every use instead of once: no calls, or only calls of pure accessors"""
+    for x in ast.walk(v):
+        if isinstance(x, ast.Call):
+            nm = x.func.attr if isinstance(x.func, ast.Attribute) else x.func.id if isinstance(x.func, ast.Name) else None
+            if nm not in PURE_ACCESSORS:
+                return False
+    return True
+
+
 def _unfold_comprehension_loops(fn: ast.FunctionDef) -> bool:
     """`for x in [E(y) for y in S if c]: B`  ->  `for y in S: if c: x = E(y); B`  (also when the list is first stored in a
     local that is used only as this loop's iterable)."""
@@ -1006,11 +1082,121 @@ def _unfold_comprehension_loops(fn: ast.FunctionDef) -> bool:
     return changed
 
 
+def _sra_prepare(repo, known: set[str]) -> list[tuple[str, str]]:
+    """`v = K(args)` for a class K that the reference tree does not have, where `v` is only ever used as `v.field` /
+    `v.method(..)`: the object is local state of the function. The constructor call becomes the explicit
+    `K.__init__(v, args)` (which the inliner then treats like any new helper); after inlining, `_sra_finish` turns the
+    fields into locals. Returns (function key, variable)."""
+    out = []
+    new_classes = {c for c, node in repo.classes.items()
+                   if f"{repo.class_module[c].name}:{c}.__init__" in repo.functions
+                   and f"{repo.class_module[c].name}:{c}.__init__" not in known}
+    if not new_classes:
+        return out
+    for f in list(repo.functions.values()):
+        for st in _own_walk(f.node):
+            if not (isinstance(st, ast.Assign) and len(st.targets) == 1 and isinstance(st.targets[0], ast.Name)
+                    and isinstance(st.value, ast.Call) and isinstance(st.value.func, ast.Name) and st.value.func.id in new_classes):
+                continue
+            v = st.targets[0].id
+            occ = [n for n in _own_walk(f.node) if isinstance(n, ast.Name) and n.id == v]
+            attr_vals = {id(n.value) for n in _own_walk(f.node) if isinstance(n, ast.Attribute)}
+            if sum(1 for n in occ if isinstance(n.ctx, ast.Store)) != 1:
+                continue
+            K = st.value.func.id
+            call_m = repo.functions.get(f"{repo.class_module[K].name}:{K}.__call__")
+            callable_obj = False
+            if not all(isinstance(n.ctx, ast.Store) or id(n) in attr_vals for n in occ):
+                # the object itself is handed on: fine if it is a *callable* whose `__call__` only reads its fields or
+                # mutates the containers they hold -- then it is a closure over those fields
+                if call_m is None or any(isinstance(x, ast.Attribute) and isinstance(x.value, ast.Name) and x.value.id == "self"
+                                         and isinstance(x.ctx, (ast.Store, ast.Del)) for x in ast.walk(call_m.node)):
+                    continue
+                callable_obj = True
+            if any(isinstance(a, ast.Starred) for a in st.value.args) or any(k.arg is None for k in st.value.keywords):
+                continue
+            call = ast.Call(ast.Attribute(ast.Name(K, ast.Load()), "__init__", ast.Load()),
+                            [ast.Name(v, ast.Load())] + list(st.value.args), list(st.value.keywords))
+            new = ast.Expr(call)
+            ast.copy_location(new, st)
+            ast.fix_missing_locations(new)
+            repl = [new]
+            if callable_obj:
+                cm = copy.deepcopy(call_m.node)
+
+                class S2(ast.NodeTransformer):
+                    def visit_Name(me, n):  # noqa: N805
+                        return ast.copy_location(ast.Name(v, n.ctx), n) if n.id == "self" else n
+                cm = S2().visit(cm)
+                cm.name = v
+                cm.args.args = cm.args.args[1:]
+                cm.decorator_list = []
+                ast.copy_location(cm, st)
+                ast.fix_missing_locations(cm)
+                repl.append(cm)
+            # replace the statement in its block
+            for par in ast.walk(f.node):
+                for fld in ("body", "orelse", "finalbody"):
+                    blk = getattr(par, fld, None)
+                    if isinstance(blk, list) and st in blk:
+                        i_ = blk.index(st)
+                        blk[i_:i_ + 1] = repl
+            out.append((f.key, v))
+            repo.__dict__.setdefault("local_objects", {})[(f.key, v)] = K
+    if out:
+        repo.reindex()
+    return out
+
+
+def _sra_finish(repo, sites: list[tuple[str, str]]) -> None:
+    for fk, v in sites:
+        f = repo.functions.get(fk)
+        if f is None:
+            continue
+        # every remaining use must be a field access (all method calls were inlined)
+        fields = set()
+        ok = True
+        parents = {}
+        for n in ast.walk(f.node):
+            for c in ast.iter_child_nodes(n):
+                parents[id(c)] = n
+        closure = next((d for d in _nested_defs(f.node) if d.name == v), None)
+        scope = list(_own_walk(f.node)) + (list(ast.walk(closure)) if closure is not None else [])
+        for n in scope:
+            if isinstance(n, ast.Name) and n.id == v:
+                par = parents.get(id(n))
+                if not (isinstance(par, ast.Attribute) and par.value is n):
+                    if closure is not None and isinstance(n.ctx, ast.Load):
+                        continue      # the closure itself is handed on
+                    ok = False
+                    break
+                gp = parents.get(id(par))
+                if isinstance(gp, ast.Call) and gp.func is par:
+                    # v.m(...) still a call: is it a field holding a container (`v.items.append`)? no: `v.m` itself is called
+                    ok = False
+                    break
+                fields.add(par.attr)
+        if not ok or not fields:
+            continue
+
+        class R(ast.NodeTransformer):
+            def visit_FunctionDef(self, n):
+                return self.generic_visit(n) if (n is f.node or n is closure) else n
+
+            def visit_Attribute(self, n):
+                if isinstance(n.value, ast.Name) and n.value.id == v:
+                    return ast.copy_location(ast.Name(f"{v}__{n.attr}", n.ctx), n)
+                return self.generic_visit(n)
+        R().visit(f.node)
+        ast.fix_missing_locations(f.node)
+
+
 def apply(repo) -> dict:
     """Mutates the module trees of `repo`; returns a report {inlined: [...], opaque: [...], removed: [...]}."""
     known = known_functions()
     report = {"inlined": [], "opaque": [], "removed": [], "new": [], "renamed": {}}
     report["renamed"] = undo_renames(repo)
+    sra = _sra_prepare(repo, known)
     normalise_calls(repo)
     for rnd in range(6):
         new = {k: f for k, f in repo.functions.items() if k not in known}
@@ -1031,8 +1217,13 @@ def apply(repo) -> dict:
             break
         repo.reindex()
     normalise_calls(repo)
+    if sra:
+        _sra_finish(repo, sra)
+        report["objects_dissolved"] = [f"{v} in {fk}" for fk, v in sra]
     for f in list(repo.functions.values()):
         if any(k.split(" -> ")[1].split(" [")[0] == f.key for k in report["inlined"]):
+            _fold_after_inlining(f.node)
+            _project_tuples(f.node)
             _unfold_comprehension_loops(f.node)
     for f in list(repo.functions.values()):
         _collect_nonnull(f.node)
@@ -1212,6 +1403,18 @@ def _inline_in(repo, f, cand: dict, report) -> bool:
                             return [s]
                         except CannotInline:
                             report["opaque"].append(f"{g.key} in {f.key}: {why}")
+        # `if a and h(x): S` (no else) with a helper call behind the `and`: nest the tests, so that the call can be hoisted
+        if isinstance(s, ast.If) and not s.orelse and isinstance(s.test, ast.BoolOp) and isinstance(s.test.op, ast.And) \
+                and len(s.test.values) >= 2:
+            later = [c for v in s.test.values[1:] for c in ast.walk(v) if isinstance(c, ast.Call)]
+            if any(resolve(c) is not None and not _pure_expression_helper(repo, resolve(c)) for c in later):
+                inner_test = s.test.values[1] if len(s.test.values) == 2 else ast.BoolOp(ast.And(), s.test.values[1:])
+                inner = ast.copy_location(ast.If(inner_test, s.body, []), s)
+                outer = ast.copy_location(ast.If(s.test.values[0], [inner], []), s)
+                ast.fix_missing_locations(outer)
+                changed = True
+                outer.body = do_block(outer.body)
+                return do_stmt(outer)
         # nested calls
         pre: list[ast.stmt] = []
         for root in header_exprs(s):
